@@ -67,7 +67,7 @@ var _ uuid.UUID
 // sequential map would report. `outcome` is the value handed to Notify (captured as ghost state).
 
 //@ spec pix(p *partition) *index.Hnsw = p.index
-//@ spec pwf(p *partition) bool = p.index != nil && p.notificator != nil && wfShards(p.index) && wfStored(p.index)
+//@ spec pwf(p *partition) bool = p.index != nil && p.notificator != nil && wfShards(p.index) && wfStored(p.index) && cfgSized(p.index)
 
 //@ func (*storage.partition).insertValue
 //@ props C02 C04 C11 C12
@@ -316,7 +316,8 @@ var _ uuid.UUID
 //@ spec wfDataset(d *Dataset) bool = d.clusterConn != nil && d.meta != nil && forall i int :: 0 <= i && i < len(d.partitions) ==> d.partitions[i] != nil && d.partitions[i].index != nil && d.partitions[i].meta != nil
 // what the request paths need on top: every partition knows its dataset, can wait for notifications, and the dataset has the
 // partitions its catalogue entry promises (C12: established by newDataset for a configuration that Create accepted)
-//@ spec wfPartition(d *Dataset, p *partition) bool = p != nil && p.index != nil && p.meta != nil && p.dataset == d && p.notificator != nil && p.notificator.chans != nil
+//@ spec searchable(p *partition) bool = p != nil && p.index != nil && cfgSized(p.index) && p.index.len <= memcap()
+//@ spec wfPartition(d *Dataset, p *partition) bool = p != nil && p.index != nil && p.meta != nil && p.dataset == d && p.notificator != nil && p.notificator.chans != nil && searchable(p)
 //@ spec wfDatasetFull(d *Dataset) bool = wfDataset(d) && d.meta.PartitionCount >= 1 && len(d.partitions) == d.meta.PartitionCount && (forall i int :: 0 <= i && i < len(d.partitions) ==> wfPartition(d, d.partitions[i])) && (forall id uuid.UUID :: has(d.partitionsMap, id) ==> wfPartition(d, d.partitionsMap[id]))
 
 //@ func iface:context.Context.Done
@@ -497,6 +498,7 @@ var _ uuid.UUID
 //@ func (*storage.Dataset).searchPartition
 //@ props C09
 //@ safety C12
+//@ requires [partition] searchable(partition)
 //@ ghost sentR int = 0
 //@ ghost sentE int = 0
 //@ at send param:resultCh
@@ -514,6 +516,7 @@ var _ uuid.UUID
 //@ func (*storage.Dataset).Search
 //@ props C09
 //@ safety C12
+//@ allocbound C12
 //@ ghost spawned int = 0
 //@ ghost real int = 0
 //@ at go searchPartitionsOnNode
@@ -526,7 +529,7 @@ var _ uuid.UUID
 //@ assume [protocol: workers send only non-nil errors] $ok ==> !isnil($recv)
 //@ end
 //@ noclose resultCh errorCh
-//@ requires [wf] wfDataset(this) && !isnil(ctx)
+//@ requires [wf] wfDataset(this) && !isnil(ctx) && k <= 4294967295
 //@ ensures [all-consulted] isnil(ret1) ==> real == spawned
 //@ ensures [never-nil-nil] isnil(ret1) ==> !isnil(ret0)
 //@ ensures [atmostk] isnil(ret1) ==> len(ret0) <= k
@@ -552,9 +555,11 @@ var _ uuid.UUID
 //@ func (*storage.Dataset).SearchPartitions
 //@ props C09
 //@ safety C12
+//@ allocbound C12
 //@ ghost spawned int = 0
 //@ ghost real int = 0
 //@ at go searchPartition
+//@ requires [C12 worker-pre] searchable($arg2)
 //@ set spawned = spawned + 1
 //@ end
 //@ at recv local:resultCh
@@ -564,7 +569,7 @@ var _ uuid.UUID
 //@ assume [protocol: workers send only non-nil errors] $ok ==> !isnil($recv)
 //@ end
 //@ noclose resultCh errorCh
-//@ requires [ctx] !isnil(ctx)
+//@ requires [ctx] !isnil(ctx) && wfDatasetFull(this) && k <= 4294967295
 //@ ensures [all-consulted] isnil(ret1) ==> real == spawned && spawned == len(partitionIds)
 //@ ensures [never-nil-nil] isnil(ret1) ==> !isnil(ret0)
 //@ ensures [atmostk] isnil(ret1) ==> len(ret0) <= k
@@ -572,8 +577,10 @@ var _ uuid.UUID
 //@ modifies *
 //@ loop 1
 //@ invariant [resolved] 0 - 1 <= rangeindex && rangeindex + 1 <= len(partitionIds) && len(partitions) == len(partitionIds) && fresh(partitions) && spawned == 0 && real == 0
+//@ invariant [searchable] wfDatasetFull(this) && forall j int :: 0 <= j && j <= rangeindex ==> searchable(partitions[j])
 //@ loop 2
 //@ invariant [spawned] spawned == rangeindex + 1 && real == 0 && 0 - 1 <= rangeindex && rangeindex + 1 <= len(partitions) && len(partitions) == len(partitionIds)
+//@ invariant [searchable] forall j int :: 0 <= j && j < len(partitions) ==> searchable(partitions[j])
 //@ loop 3
 //@ invariant [consumed] real == i && 0 <= i && i <= len(partitions) && spawned == len(partitions) && len(partitions) == len(partitionIds) && fresh(result)
 
@@ -652,6 +659,14 @@ var _ uuid.UUID
 // repeated message field has no nil element (protobuf decoding never produces one); ids, vectors, metadata are arbitrary.
 //@ spec noNilItems(items []*pb.BatchItem) bool = forall i int :: 0 <= i && i < len(items) ==> items[i] != nil
 //@ spec wfGroups(d *Dataset, m map[*partition][]*pb.BatchItem) bool = !has(m, nil) && (forall p *partition :: has(m, p) ==> wfPartition(d, p)) && (forall p *partition, i int :: has(m, p) && 0 <= i && i < len(m[p]) ==> m[p][i] != nil)
+
+// uuid.Must panics on a non-nil error
+//@ func github.com/satori/go.uuid.Must
+//@ props C12 C10
+//@ assume
+//@ requires [no-error] isnil(err)
+//@ ensures [id] ret == u
+//@ modifies nothing
 
 //@ func github.com/satori/go.uuid.FromBytesOrNil
 //@ props C12
@@ -1010,6 +1025,7 @@ var _ uuid.UUID
 // ---------------------------------------------------------------------------------------------
 // C14: the dataset catalogue as a replicated state machine. cat(dm) = dm.datasets : id -> dataset (with its meta record).
 
+//@ spec noNilPartitions(d *Dataset) bool = forall i int :: 0 <= i && i < len(d.partitions) ==> d.partitions[i] != nil
 //@ spec dmwf(dm *DatasetManager) bool = dm.datasets != nil && dm.notificator != nil && dm.allocator != nil
 
 // newDataset (assumed): builds the in-memory dataset from the decoded record; fails only on malformed partition ids
@@ -1017,6 +1033,7 @@ var _ uuid.UUID
 //@ props C14
 //@ assume
 //@ ensures [built] isnil(ret1) ==> ret0 != nil && fresh(ret0) && ret0.id == id && ret0.meta != nil && ret0.meta.Dimension == meta.Dimension && ret0.meta.Space == meta.Space && ret0.meta.PartitionCount == meta.PartitionCount && ret0.meta.ReplicationFactor == meta.ReplicationFactor && ret0.meta.Partitions == meta.Partitions
+//@ ensures [partitions] isnil(ret1) ==> noNilPartitions(ret0)
 //@ ensures [failed] !isnil(ret1) ==> ret0 == nil
 //@ modifies nothing
 
@@ -1064,7 +1081,7 @@ var _ uuid.UUID
 //@ set gid = $ret0
 //@ end
 //@ requires [wf] dmwf(this)
-//@ requires [entries] forall j uuid.UUID :: has(this.datasets, j) ==> this.datasets[j] != nil
+//@ requires [entries] forall j uuid.UUID :: has(this.datasets, j) ==> this.datasets[j] != nil && noNilPartitions(this.datasets[j])
 //@ ensures [notify-once] isnil(ret) ==> notified == 1
 //@ ensures [absent] isnil(ret) && !old(has(this.datasets, gid)) ==> outcome == DatasetNotFoundErr && !has(this.datasets, gid)
 //@ ensures [deleted] isnil(ret) && old(has(this.datasets, gid)) ==> isnil(outcome) && !has(this.datasets, gid)
@@ -1080,7 +1097,7 @@ var _ uuid.UUID
 //@ props C14
 //@ safety C12
 //@ requires [wf] dmwf(this)
-//@ requires [entries] forall j uuid.UUID :: has(this.datasets, j) ==> this.datasets[j] != nil
+//@ requires [entries] forall j uuid.UUID :: has(this.datasets, j) ==> this.datasets[j] != nil && noNilPartitions(this.datasets[j])
 //@ ensures [exact] isnil(ret) ==> forall j uuid.UUID :: has(this.datasets, j) == inSnap(dmSnapshot.Datasets, j, len(dmSnapshot.Datasets))
 //@ ensures [kept-as-they-were] isnil(ret) ==> forall j uuid.UUID :: has(this.datasets, j) && old(has(this.datasets, j)) ==> this.datasets[j] == old(this.datasets[j])
 //@ modifies map(this.datasets), map(this.allocator.partitions)
@@ -1089,7 +1106,7 @@ var _ uuid.UUID
 //@ invariant [added] forall j uuid.UUID :: inSnap(dmSnapshot.Datasets, j, rangeindex + 1) ==> has(this.datasets, j)
 //@ invariant [nothing-else] forall j uuid.UUID :: has(this.datasets, j) ==> old(has(this.datasets, j)) || inSnap(dmSnapshot.Datasets, j, rangeindex + 1)
 //@ invariant [old-kept] forall j uuid.UUID :: old(has(this.datasets, j)) ==> has(this.datasets, j) && this.datasets[j] == old(this.datasets[j])
-//@ invariant [entries] forall j uuid.UUID :: has(this.datasets, j) ==> this.datasets[j] != nil
+//@ invariant [entries] forall j uuid.UUID :: has(this.datasets, j) ==> this.datasets[j] != nil && noNilPartitions(this.datasets[j])
 //@ invariant [snapshot-fixed] dmwf(this) && forall i int :: 0 <= i && i < len(dmSnapshot.Datasets) ==> dmSnapshot.Datasets[i] == old(dmSnapshot.Datasets[i])
 //@ loop 3
 //@ invariant [ids] snapshotIds != nil && forall j uuid.UUID :: has(snapshotIds, j) == inSnap(dmSnapshot.Datasets, j, len(dmSnapshot.Datasets))
@@ -1097,7 +1114,7 @@ var _ uuid.UUID
 //@ invariant [visited-pruned] forall j uuid.UUID :: $visited[j] && !has(snapshotIds, j) ==> !has(this.datasets, j)
 //@ invariant [only-deletions] forall j uuid.UUID :: has(this.datasets, j) ==> $start[j]
 //@ invariant [kept] forall j uuid.UUID :: has(this.datasets, j) && old(has(this.datasets, j)) ==> this.datasets[j] == old(this.datasets[j])
-//@ invariant [entries] dmwf(this) && forall j uuid.UUID :: has(this.datasets, j) ==> this.datasets[j] != nil
+//@ invariant [entries] dmwf(this) && forall j uuid.UUID :: has(this.datasets, j) ==> this.datasets[j] != nil && noNilPartitions(this.datasets[j])
 //@ loop 4
 //@ invariant [ids] snapshotIds != nil
 
@@ -1125,7 +1142,7 @@ var _ uuid.UUID
 //@ set applied = applied + 1
 //@ end
 //@ requires [wf] dmwf(this)
-//@ requires [entries] forall j uuid.UUID :: has(this.datasets, j) ==> this.datasets[j] != nil
+//@ requires [entries] forall j uuid.UUID :: has(this.datasets, j) ==> this.datasets[j] != nil && noNilPartitions(this.datasets[j])
 //@ ensures [applied-once] decoded == 1 && len(change.NotificationId) == 16 && change.Type >= 0 && change.Type <= 2 ==> applied == 1
 //@ ensures [undecodable-applies-nothing] decoded == 0 ==> applied == 0
 //@ modifies *
